@@ -20,12 +20,15 @@ Fixpoint efrag (e : expr) : bool :=
   | EBin _ _ _ l r | EIndex l r => efrag l && efrag r
   | EArr l => efrag_list l
   | EMap kvs np => Z.eqb np (pairs_len kvs) && efrag_pairs kvs   (* len(Pairs) = len(Order): no key twice *)
+  | ESlice l a b => efrag l && efrag_o a && efrag_o b
   | _ => false
   end
 with efrag_list (l : elist) : bool :=
   match l with ENil => true | ECons e t => efrag e && efrag_list t end
 with efrag_pairs (l : eplist) : bool :=
-  match l with PNil => true | PCons _ e t => efrag e && efrag_pairs t end.
+  match l with PNil => true | PCons _ e t => efrag e && efrag_pairs t end
+with efrag_o (o : oexpr) : bool :=
+  match o with ONoneE => true | OSome e => efrag e end.
 
 
 Definition ofrag (o : oexpr) : bool := match o with ONoneE => true | OSome e => efrag e end.
